@@ -42,3 +42,10 @@ func TestCalibrate(t *testing.T) {
 		fmt.Printf("skipped=%d mismatch classes: %v\n", skipped, seen)
 	}
 }
+
+func TestLevels(t *testing.T) {
+	if os.Getenv("VERIF_CALIBRATE") == "" {
+		t.Skip()
+	}
+	fmt.Println("LEVELS", levelCounts(), "layouts quick", len(layouts(false)), "thorough", len(layouts(true)))
+}
